@@ -157,145 +157,3 @@ fn c07_event_cut_start() {
 	event_cut(0x3B, Cut::Middle);
 	event_cut(0x3B, Cut::Empty);
 }
-
-fn decoder_ok<'a>(_enc: &'static encoding_rs::Encoding, _bytes: &'a [u8]) -> Option<Cow<'a, str>> {
-	Some(Cow::Borrowed(""))
-}
-
-fn is_class(n: usize) -> bool {
-	n == 320 || n == 352 || n == 416 || n == 417 || n == 418 || n == 420 || n == 584 || n == 700 || n == 701 || n == 760
-}
-
-fn start_block_of_len(n: usize) {
-	let mut b: [u8; 768] = kani::any();
-	let mut p = 0;
-	while p < 6 {
-		b[100 + 36 * p + 1] = 3;
-		p += 1;
-	}
-	let mut i = 320;
-	while i < 352 {
-		b[i] = 0;
-		i += 1;
-	}
-	let mut p = 0;
-	while p < 4 {
-		b[352 + 16 * p] = 0;
-		b[420 + 31 * p] = 0;
-		b[544 + 10 * p] = 0;
-		b[584 + 29 * p] = 0;
-		p += 1;
-	}
-	b[700] = 0;
-	b[701] = 0;
-	let mut r: &[u8] = &b[..n];
-	let res = game_start(&mut r);
-	// a block cut inside an optional tail is rejected, never parsed as the next shorter layout;
-	// bytes beyond the newest layout are ignored
-	assert!(res.is_ok() == (is_class(n) || n > 760));
-	if let Ok(s) = &res {
-		assert!(s.bytes.0.len() == n);
-		assert!(s.players.len() == 0);
-		assert!(s.is_pal.is_some() == (n >= 417));
-		assert!(s.is_frozen_ps.is_some() == (n >= 418));
-		assert!(s.scene.is_some() == (n >= 420));
-		assert!(s.language.is_some() == (n >= 701));
-		assert!(s.r#match.is_some() == (n >= 760));
-	}
-	forget(res);
-}
-
-// @verif property=C07,C08,C05 tier=quick mem=16 timeout=2400
-// @encodes peppi::io::slippi::de::game_start, if_more, player_bytes on Game Start blocks of lengths 351, 352, 419, 420
-// @symbolic 20000 every non-structural byte of each block
-// @bound block lengths 351, 352, 419, 420 (concrete: a symbolic length makes every read fallible and did not finish in 16 min); no occupied ports; strings empty; language byte 0
-// @assume structural bytes assigned: all port types "empty", UCF words 0, name fields start with NUL, language 0, match id empty
-// @assume oracle: the ten length classes of spec/start_layout.json; a block is accepted iff its length is one of them or exceeds the newest (extra trailing bytes of a newer version are ignored)
-// @stub encoding_rs::Encoding::decode_without_bom_handling_and_without_replacement = returns ""
-// @stub core::str::from_utf8 = identity on the (empty) test strings
-// @stub alloc::fmt::format = returns an empty String
-// @cbmc --max-field-sensitivity-array-size 1024
-#[kani::proof]
-#[kani::unwind(53)]
-#[kani::stub(alloc::fmt::format, format_stub)]
-#[kani::stub(encoding_rs::Encoding::decode_without_bom_handling_and_without_replacement, decoder_ok)]
-#[kani::stub(core::str::from_utf8, utf8_ascii_stub)]
-fn c07_start_cut_a() {
-	start_block_of_len(351);
-	start_block_of_len(352);
-	start_block_of_len(419);
-	start_block_of_len(420);
-	kani::cover!(true, "reached");
-}
-
-// @verif property=C07,C08,C05 tier=thorough mem=16 timeout=2400
-// @encodes peppi::io::slippi::de::game_start, if_more, player_bytes on Game Start blocks of lengths 320, 415, 416, 417, 418
-// @symbolic 25000 every non-structural byte of each block
-// @bound block lengths 320, 415, 416, 417, 418 (concrete: a symbolic length makes every read fallible and did not finish in 16 min); no occupied ports; strings empty; language byte 0
-// @assume structural bytes assigned: all port types "empty", UCF words 0, name fields start with NUL, language 0, match id empty
-// @assume oracle: the ten length classes of spec/start_layout.json; a block is accepted iff its length is one of them or exceeds the newest (extra trailing bytes of a newer version are ignored)
-// @stub encoding_rs::Encoding::decode_without_bom_handling_and_without_replacement = returns ""
-// @stub core::str::from_utf8 = identity on the (empty) test strings
-// @stub alloc::fmt::format = returns an empty String
-// @cbmc --max-field-sensitivity-array-size 1024
-#[kani::proof]
-#[kani::unwind(53)]
-#[kani::stub(alloc::fmt::format, format_stub)]
-#[kani::stub(encoding_rs::Encoding::decode_without_bom_handling_and_without_replacement, decoder_ok)]
-#[kani::stub(core::str::from_utf8, utf8_ascii_stub)]
-fn c07_start_cut_b() {
-	start_block_of_len(320);
-	start_block_of_len(415);
-	start_block_of_len(416);
-	start_block_of_len(417);
-	start_block_of_len(418);
-	kani::cover!(true, "reached");
-}
-
-// @verif property=C07,C08,C05 tier=thorough mem=16 timeout=2400
-// @encodes peppi::io::slippi::de::game_start, if_more, player_bytes on Game Start blocks of lengths 583, 584, 699, 700, 701
-// @symbolic 25000 every non-structural byte of each block
-// @bound block lengths 583, 584, 699, 700, 701 (concrete: a symbolic length makes every read fallible and did not finish in 16 min); no occupied ports; strings empty; language byte 0
-// @assume structural bytes assigned: all port types "empty", UCF words 0, name fields start with NUL, language 0, match id empty
-// @assume oracle: the ten length classes of spec/start_layout.json; a block is accepted iff its length is one of them or exceeds the newest (extra trailing bytes of a newer version are ignored)
-// @stub encoding_rs::Encoding::decode_without_bom_handling_and_without_replacement = returns ""
-// @stub core::str::from_utf8 = identity on the (empty) test strings
-// @stub alloc::fmt::format = returns an empty String
-// @cbmc --max-field-sensitivity-array-size 1024
-#[kani::proof]
-#[kani::unwind(53)]
-#[kani::stub(alloc::fmt::format, format_stub)]
-#[kani::stub(encoding_rs::Encoding::decode_without_bom_handling_and_without_replacement, decoder_ok)]
-#[kani::stub(core::str::from_utf8, utf8_ascii_stub)]
-fn c07_start_cut_c() {
-	start_block_of_len(583);
-	start_block_of_len(584);
-	start_block_of_len(699);
-	start_block_of_len(700);
-	start_block_of_len(701);
-	kani::cover!(true, "reached");
-}
-
-// @verif property=C07,C08,C05 tier=thorough mem=16 timeout=2400
-// @encodes peppi::io::slippi::de::game_start, if_more, player_bytes on Game Start blocks of lengths 759, 760, 761, 768
-// @symbolic 20000 every non-structural byte of each block
-// @bound block lengths 759, 760, 761, 768 (concrete: a symbolic length makes every read fallible and did not finish in 16 min); no occupied ports; strings empty; language byte 0
-// @assume structural bytes assigned: all port types "empty", UCF words 0, name fields start with NUL, language 0, match id empty
-// @assume oracle: the ten length classes of spec/start_layout.json; a block is accepted iff its length is one of them or exceeds the newest (extra trailing bytes of a newer version are ignored)
-// @stub encoding_rs::Encoding::decode_without_bom_handling_and_without_replacement = returns ""
-// @stub core::str::from_utf8 = identity on the (empty) test strings
-// @stub alloc::fmt::format = returns an empty String
-// @cbmc --max-field-sensitivity-array-size 1024
-#[kani::proof]
-#[kani::unwind(53)]
-#[kani::stub(alloc::fmt::format, format_stub)]
-#[kani::stub(encoding_rs::Encoding::decode_without_bom_handling_and_without_replacement, decoder_ok)]
-#[kani::stub(core::str::from_utf8, utf8_ascii_stub)]
-fn c07_start_cut_d() {
-	start_block_of_len(759);
-	start_block_of_len(760);
-	start_block_of_len(761);
-	start_block_of_len(768);
-	kani::cover!(true, "reached");
-}
-
